@@ -102,8 +102,8 @@ Proof.
   destruct (_ =? IndentedCodeBlockKind).
   { unfold matchIndented. cbv zeta. destruct (_ <? _); [destruct (negb _)|]; cbn [snd]; try apply F_consumeIndent; exact H. }
   destruct (_ =? HTMLBlockKind).
-  { unfold matchHTML. destruct (htmlEnd _ _); [|exact H]. cbn [snd]. apply F_consumeLine.
-    destruct (negb _); [apply F_collectInline|]; exact H. }
+  { unfold matchHTML. destruct (htmlEnd _ _); [|exact H]. destruct (isRestBlank _); [exact H|]. cbn [snd]. apply F_consumeLine.
+    apply F_collectInline; exact H. }
   exact H.
 Qed.
 Lemma F_withCont p d : F p -> (exists x, getAt d (root p) = Some x) -> F (withCont p (Some d)).
